@@ -94,6 +94,10 @@ def run_one(args):
             o = _observe(case, outp, tb, cd, native)
             out["obs"] = o
             out["real"] = o["status"]
+        if with_ld == "auto":
+            # the GNU ld oracle for every suspicious case and for a deterministic quarter of the rest
+            import zlib
+            with_ld = out["real"] in ("link-wrong", "unloadable") or zlib.crc32(out["name"].encode()) % 4 == 0
         if with_ld:
             r2, outp2, args_l = rg.link_case(case, objs, cd, tb, "ld")
             out["ld_rc"] = r2.rc
